@@ -214,18 +214,31 @@ def run(ctx, rep):
     # ---- C12.g -------------------------------------------------------------------------------------
     RW = prog.find1(r"^<rustic_core::blob::tree::rewrite::RewriteVisitor as rustic_core::blob::tree::modify::Visitor>::process_node$")
     rem = [bi for bi, blk in enumerate(RW.blocks) for s in blk["s"] if s[0] == "=" and s[2][0] == "agg" and s[2][1][0] == "adt" and s[2][1][1].endswith("NodeAction") and s[2][1][2] == "Removed"]
+    IGN = _discr_of(prog_variants_ignore_match(), "Ignore")
+    is_matched = lambda x: x[0] == "discr" and "ignore::Match" in (x[2] if len(x) > 2 and isinstance(x[2], str) else "") and "matched" in repr(x)
+    # bool helpers that answer `true` only for Match::Ignore (`fn is_excluded(..) -> bool { matches!(self.overrides.matched(..), Match::Ignore(_)) }`)
+    ign_helpers = set()
+    for bb_, t_ in RW.calls():
+        if "callee" in t_ and callee(t_).startswith("rustic_core::") and callee(t_) in prog.bodies and t_.get("dest_ty") == "bool":
+            H = prog.bodies[callee(t_)]
+            tb, other = [], False
+            for bi_, blk_ in enumerate(H.blocks):
+                for s_ in blk_["s"]:
+                    if s_[0] == "=" and s_[1] == [0]:
+                        if s_[2][0] == "use" and s_[2][1][0] == "k" and isinstance(s_[2][1][1].get("v"), bool):
+                            if s_[2][1][1]["v"]:
+                                tb.append(bi_)
+                        else:
+                            other = True
+                if blk_["t"]["k"] == "call" and blk_["t"].get("dest") == [0]:
+                    other = True
+            if tb and not other and all(only_via(H, x_, is_matched, IGN) for x_ in tb):
+                ign_helpers.add(callee(t_))
+    is_helper = lambda x: x[0] == "call" and x[1] in ign_helpers
     okg = bool(rem)
     for bi in rem:
-        dep = False
-        for (sw, succ) in C.transitive_control_deps(RW, bi):
-            e = flow.expr_of(RW, RW.term(sw)["discr"])
-            if e[0] == "discr" and "ignore::Match" in e[2] and "matched" in repr(e):
-                v = [vv for vv, x in RW.term(sw)["targets"] if x == succ]
-                ign = _discr_of(prog_variants_ignore_match(), "Ignore")
-                dep = bool(v) and v[0] == ign
-        okg = okg and dep
-        # must-pass: every path to the removal has taken the Ignore edge of the matcher's result
-        okg = okg and only_via(RW, bi, lambda x: x[0] == "discr" and "ignore::Match" in (x[2] if len(x) > 2 and isinstance(x[2], str) else "") and "matched" in repr(x), _discr_of(prog_variants_ignore_match(), "Ignore"))
+        # must-pass: every path to the removal has taken the Ignore edge of the matcher's result (directly or through such a helper)
+        okg = okg and (only_via(RW, bi, is_matched, IGN) or (bool(ign_helpers) and only_via(RW, bi, is_helper, True)))
     rep.check("C12.g", "removed-only-if-ignored", okg, where=RW.loc(), what="a node is dropped from a rewritten tree only if the exclusion matcher returns Match::Ignore")
     memo_rule(prog, rep)
 
